@@ -3,7 +3,7 @@
 
 use crate::{
     rng::Rng,
-    scen::{Scenario, B_END, B_OBS, B_START, MAGIC, MAGIC_IN, MAGIC_OUT, MAGIC_OUT2},
+    scen::{Scenario, B_DIGEST, B_END, B_OBS, B_START, MAGIC, MAGIC_IN, MAGIC_OUT, MAGIC_OUT2},
     state::{Script, ViewSpec},
 };
 use essential_hash::content_addr;
@@ -197,33 +197,33 @@ fn clear_stack(o: &mut Vec<Op>) {
     o.extend([PUSH(0), RES, DROP]);
 }
 
-/// Leaf that ends with exactly `[r]`, r computed from the input (so a wrong input can flip it).
-fn constraint_leaf(o: &mut Vec<Op>, r: &mut Rng, want_false: bool) {
-    // r = (depth >= k) && ... simple input-dependent predicates that are usually true
-    match r.below(3) {
-        0 => o.extend([PUSH(0), RES, PUSH(0), GTE]),                       // depth >= 0
-        1 => o.extend([PUSH(0), ALOC, PUSH(0), GTE]),                      // memory length >= 0
-        _ => o.extend([PUSH(0), RES, PUSH(0), ALOC, ADD, PUSH(-1), GT]),   // depth + mem > -1
-    }
+/// Fold the whole input (every stack word and every memory word) into one word `D`, leave `[D]` on
+/// the stack and announce it with a digest beacon. Works on any input; makes everything that flowed
+/// into the leaf visible in its verdict / data output and at the API boundary.
+fn digest(o: &mut Vec<Op>, abs: Word) {
+    // sum of the stack: two extra zeros so that there are always >= 2 words, then depth-1 additions
+    o.extend([PUSH(0), PUSH(0), PUSH(0), RES, PUSH(1), SUB, PUSH(1), REP, ADD, REPE]);
+    // plus every memory word (one extra zero word so that the loop body is always valid)
+    o.extend([PUSH(1), ALOC, POP, PUSH(0), ALOC, PUSH(1), REP, REPC, LOD, ADD, REPE]);
+    // beacon: MAGIC, B_DIGEST, tag, abs, D
+    o.extend([PUSH(MAGIC), PUSH(B_DIGEST)]);
+    push_tag(o);
+    o.extend([PUSH(abs), PUSH(4), DUPF, PUSH(5), PUSH(0), PUSH(0), KRNG]);
+}
+
+/// Leaf that ends with exactly `[r]`, r computed from the digest of its input.
+fn constraint_leaf(o: &mut Vec<Op>, _r: &mut Rng, want_false: bool) {
+    o.extend([PUSH(97), MOD, PUSH(13), EQ, NOT]);
     if want_false {
         o.push(NOT);
     }
-    // keep r across clearing the stack
-    o.extend([PUSH(1), ALOC, STO]);
-    clear_stack(o);
-    o.extend([PUSH(0), ALOC, PUSH(1), SUB, LOD]);
 }
 
 /// Leaf that writes a mutation list into memory and ends with `[2]`.
 fn data_leaf(o: &mut Vec<Op>, r: &mut Rng, keys: &[Vec<Word>], hostile: bool) {
-    // value word derived from the input: depth + memory length + tag
-    o.extend([PUSH(0), RES, PUSH(0), ALOC, ADD]);
+    // stack: [D] (digest of the whole input); the value word is D + tag
     push_tag(o);
     o.push(ADD);
-    // stash it in memory[last]
-    o.extend([PUSH(1), ALOC, STO]);
-    clear_stack(o);
-    o.extend([PUSH(0), ALOC, PUSH(1), SUB, LOD]); // stack: [v]
     o.extend([PUSH(0), FREE]); // memory = []
     // build: count, (klen, key.., vlen, value..)*
     let mut words: Vec<Op> = vec![];
@@ -403,6 +403,7 @@ pub fn gen_scenario(r: &mut Rng, o: &GenOpts) -> Scenario {
                 if r.chance(o.p_post * 0.6) {
                     reader(&mut ops, r, abs, true, &contracts_pool, o.hostile_reads);
                 }
+                digest(&mut ops, abs);
                 if r.chance(o.p_data_leaf) {
                     let nk = 1 + r.below(3);
                     let mut keys: Vec<Vec<Word>> = vec![];
